@@ -272,19 +272,27 @@ def run(ck: Check, prog: Program) -> None:
         p2.append(('FALLBACKS', 'unpatched endpoint is not passed through / refused as configured', onr.node.lineno,
                    'an endpoint without patches must be passed to the original transport when passthrough is on and refused with '
                    'ConnectionRefusedError otherwise'))
-    # batch loop
+    # batch loop — decided on the values: what is iterated is the deserialised batch, and what is appended is the matcher's answer
+    # for the loop element (through locals)
+    from ..flow import Flow as _FlowB
+    flb = _FlowB(cfg2)
     heads = [n for n in cfg2.nodes if n.kind == 'next']
     ok_b = False
     if len(heads) == 1:
         h = heads[0]
-        it = h.ast.iter
-        body_calls = [cc for n in cfg2.stmt_nodes() if n.id in cfg2.reachable(h, edge_ok=lambda e: e.label != 'exhausted') and h.id in cfg2.reachable(n)
-                      for cc in calls_in(n) if dotted(cc.func) == 'self._match_request']
-        apps = [cc for n in cfg2.stmt_nodes() for cc in calls_in(n) if isinstance(cc.func, ast.Attribute) and cc.func.attr == 'append'
-                and cc.args and isinstance(cc.args[0], ast.Call) and dotted(cc.args[0].func) == 'self._match_request']
+        it_nodes = [m_ for m_ in cfg2.nodes if m_.kind == 'iter' and m_.ast is h.ast.iter]
+        it_leaves = [al.expr for al in flb.alts(it_nodes[0] if it_nodes else h, h.ast.iter)]
+        it_ok = bool(it_leaves) and all(isinstance(v, ast.Call) and norm(v.func).endswith('BatchRequest.from_json') for v in it_leaves)
+        in_loop = [n for n in cfg2.stmt_nodes() if n.id in cfg2.reachable(h, edge_ok=lambda e: e.label != 'exhausted') and h.id in cfg2.reachable(n)]
+        body_calls = [cc for n in in_loop for cc in calls_in(n) if dotted(cc.func) == 'self._match_request']
+        apps = [(n, cc) for n in in_loop for cc in calls_in(n) if isinstance(cc.func, ast.Attribute) and cc.func.attr == 'append' and cc.args]
         tv = dotted(h.ast.target)
-        ok_b = isinstance(it, ast.Call) and norm(it.func).endswith('BatchRequest.from_json') and len(body_calls) == 1 and len(apps) == 1 and \
-            [norm(a) for a in body_calls[0].args][2:] == [f'{tv}.method', f'{tv}.params', f'{tv}.id']
+        app_ok = False
+        if len(apps) == 1 and len(body_calls) == 1:
+            an, ac = apps[0]
+            leaves = [al.expr for al in flb.alts(an, ac.args[0])]
+            app_ok = bool(leaves) and all(v is body_calls[0] for v in leaves)
+        ok_b = it_ok and app_ok and [norm(a) for a in body_calls[0].args][2:] == [f'{tv}.method', f'{tv}.params', f'{tv}.id']
     if not ok_b:
         p2.append(('ELEMENTWISE', 'batch is not answered element by element, in order', onr.node.lineno,
                    'a batch must be answered by appending _match_request(endpoint, version, method, params, id) of every element, in order'))
